@@ -331,6 +331,48 @@ def Redox.ofTokens (ne iAlk : Nat) (toks : List (Int × Rat)) (coef alk salk : R
       else if tj.1.1 = -1 then (acc.1, v) else acc) (List.replicate ne (0 : Rat), (0 : Rat))
   { coef := acc.1.set iAlk ((alk - salk) / coef), water := acc.2 }
 
+/-! ## tidy_inverse: which uncertainty list every element row gets (-uncertainty, -balances) -/
+
+/-- a mass-balance row: its master species and the primary master of its element (ids) -/
+structure RowId where
+  master : Nat
+  primary : Nat
+deriving Inhabited, DecidableEq
+
+/-- a `-balances` entry after the first part of tidy_inverse (list already completed to all solutions):
+    `element p` = the name of a redox element (primary master with secondary masters), `row m` = any other master -/
+inductive BalTarget
+  | element (prim : Nat)
+  | row (master : Nat)
+deriving Inhabited, DecidableEq
+
+structure BalEntry where
+  target : BalTarget
+  unc : List Rat
+deriving Inhabited
+
+/-- completion of a list read from the input: empty → the defaults, short → padded with its last value -/
+def padUnc (ns : Nat) (given dflt : List Rat) : List Rat :=
+  match given.getLast? with
+  | none => dflt
+  | some l => given ++ List.replicate (ns - given.length) l
+
+/-- "copy primary redox to all secondary redox": every row of the element gets the list -/
+def stepElem (rows : List RowId) (u : Nat → List Rat) (en : BalEntry) : Nat → List Rat :=
+  match en.target with
+  | .element p => fun i => if (rows.getD i default).primary = p ∧ i < rows.length then en.unc else u i
+  | .row _ => u
+
+/-- "copy masters that are not primary redox": the first row with that master gets the list (`break`) -/
+def stepRow (rows : List RowId) (u : Nat → List Rat) (en : BalEntry) : Nat → List Rat :=
+  match en.target with
+  | .element _ => u
+  | .row m => fun i => if i = rows.findIdx (fun r => r.master = m) ∧ i < rows.length then en.unc else u i
+
+/-- uncertainties of row `i` after tidy_inverse: defaults, then all element-wide entries, then all row entries -/
+def propagateUnc (rows : List RowId) (dflt : List Rat) (entries : List BalEntry) : Nat → List Rat :=
+  entries.foldl (stepRow rows) (entries.foldl (stepElem rows) (fun _ => dflt))
+
 /-! ## the subset search (`solve_inverse`, `minimal_solve`, `next_set_phases`, bit-set helpers) -/
 
 /-- `a ⊆ b` on bit sets: `(a | b) == b` -/
